@@ -523,7 +523,41 @@ def partial_todo_section(ctx):
                                          "hand-written here" if how == "hand" and feat == tag else "which the writer was to generate"))
 
 
+def split_gdef_section(ctx):
+    """the user's GDEF table written in SEVERAL blocks, the glyph classes not in the first one: the classes decide who is a base
+    and who is a mark -- `acute`, a GDEF base that carries both `_top` and `top`, takes marks and is not attached as one"""
+    import ufo2ft
+    from fontTools.ttLib import TTFont
+    ORDERS = [["carets", "classes"], ["classes", "carets"], ["carets", "attach", "classes"]]
+    BLOCK = {"carets": "table GDEF {\n    LigatureCaretByPos f_i 100;\n} GDEF;\n", "attach": "table GDEF {\n    Attach a 1;\n} GDEF;\n",
+             "classes": "table GDEF {\n    GlyphClassDef [a acute], [f_i], [acutecomb], ;\n} GDEF;\n"}
+    for i in range(ctx.budget(2 * len(ORDERS), 4 * len(ORDERS))):
+        order = ORDERS[i % len(ORDERS)]
+        lib = ["ufoLib2", "defcon"][(i // len(ORDERS)) % 2]
+        glyphs = [{"name": "a", "unicodes": [0x61], "width": 500, "contours": [], "anchors": [("top", Fr(250), Fr(500))]},
+                  {"name": "acute", "unicodes": [0xB4], "width": 300, "contours": [], "anchors": [("_top", Fr(100), Fr(480)), ("top", Fr(150), Fr(700))]},
+                  {"name": "f_i", "unicodes": [0xFB01], "width": 600, "contours": [], "anchors": []},
+                  {"name": "acutecomb", "unicodes": [0x301], "width": 0, "contours": [], "anchors": [("_top", Fr(0), Fr(500))]}]
+        desc = {"glyphs": glyphs, "features": "languagesystem DFLT dflt;\n" + "".join(BLOCK[b] for b in order)}
+        case = {"font": jsonable(desc), "lib": lib, "gdef_blocks": order}
+        ctx.count(); ctx.klass("GDEF table in several blocks: %s" % "+".join(order)); ctx.nontriv(("sgdef", i, ctx.scale))
+        try:
+            tt = ufo2ft.compileTTF(build_font(desc, lib), useProductionNames=False)
+            b = io.BytesIO(); tt.save(b); lay = Layout(TTFont(io.BytesIO(b.getvalue())))
+        except Exception as e:
+            ctx.spec_failure(case, "compile raised %s: %s\n%s" % (type(e).__name__, e, traceback.format_exc()[-1000:]))
+            continue
+        lk = lay.lookups_for("DFLT", {"mark", "mkmk"})
+        want = {("a", "acutecomb"): (250, 0), ("acute", "acutecomb"): (150, 200), ("a", "acute"): None, ("acute", "acute"): None}
+        for (base, mk), w in want.items():
+            got = lay.mark_attach(lk, base, mk)
+            got = tuple(got[:2]) if got else None
+            if got != w:
+                ctx.spec_failure(dict(case, base=base, mark=mk), "%s on %s: attached by %r; with the GDEF classes of the feature file (acute is a base) it is %r" % (mk, base, got, w))
+
+
 def explore(ctx):
+    split_gdef_section(ctx)
     partial_todo_section(ctx)
     mark_class_section(ctx)
     colliding_names_section(ctx)
